@@ -655,12 +655,12 @@ def gen_prolongation(src, macro='FINE_NODE_PROLONGATION', fn_name='applyProlonga
     return emit_block(parse_block(body), cx, 4)
 
 
-def gen_restriction(src):
+def gen_restriction(src, fn_name='applyRestriction'):
     clean = strip_comments(src)
-    body = find_function_body(clean, r'void\s+Interpolation::applyRestriction\s*\(')
+    body = find_function_body(clean, r'void\s+Interpolation::' + fn_name + r'\s*\(')
     m = re.search(r'const\s+int\s+coarseNumberSmootherCircles\s*=\s*coarseGrid\.numberSmootherCircles\(\)\s*;', body)
     if not m:
-        raise TranslateError('applyRestriction: coarseNumberSmootherCircles is not coarseGrid.numberSmootherCircles()')
+        raise TranslateError('%s: coarseNumberSmootherCircles is not coarseGrid.numberSmootherCircles()' % fn_name)
     loops = innermost_loops(body)
     if len(loops) != 2:
         raise TranslateError('applyRestriction: expected 2 doubly nested loops, found %d' % len(loops))
@@ -799,6 +799,7 @@ def main():
         exprol = gen_prolongation(open(os.path.join(REPO, 'src/Interpolation/extrapolated_prolongation.cpp')).read(),
                                   'FINE_NODE_EXTRAPOLATED_PROLONGATION', 'applyExtrapolatedProlongation')
         restr = gen_restriction(open(os.path.join(REPO, 'src/Interpolation/restriction.cpp')).read())
+        exrestr = gen_restriction(open(os.path.join(REPO, 'src/Interpolation/extrapolated_restriction.cpp')).read(), 'applyExtrapolatedRestriction')
         fmg = gen_prolongation(open(os.path.join(REPO, 'src/Interpolation/fmg_interpolation.cpp')).read(),
                                'FINE_NODE_FMG_INTERPOLATION', 'applyFMGInterpolation')
         sm_src = open(os.path.join(REPO, 'src/Smoother/SmootherTake/smootherSolver.cpp')).read()
@@ -829,6 +830,9 @@ def main():
         out += '  (* applyRestriction (src/Interpolation/restriction.cpp), loop nest  for (%s) for (%s); x indexed by fine nodes *)\n' % (oh, ih)
         out += '  Definition gen_restriction_%s_visits (ic jc : Z) : bool := %s.\n' % (nm, dom)
         out += '  Definition gen_restriction_%s (x : Z -> Z -> S) (ic jc : Z) : list gwrite :=\n    %s.\n' % (nm, term)
+    for nm, (dom, term, oh, ih) in zip(['circle', 'radial'], exrestr):
+        out += '  (* applyExtrapolatedRestriction (src/Interpolation/extrapolated_restriction.cpp), loop nest  for (%s) for (%s) *)\n' % (oh, ih)
+        out += '  Definition gen_extrapolated_restriction_%s (x : Z -> Z -> S) (ic jc : Z) : list gwrite :=\n    %s.\n' % (nm, term)
     out += '\n  (* ---- take smoother: NODE_APPLY_ASC_ORTHO_CIRCLE_TAKE / _RADIAL_TAKE (src/Smoother/SmootherTake/smootherSolver.cpp) ---- *)\n'
     out += '  Definition gen_asc_ortho_circle_take (rhs x : Z -> Z -> S) (i j : Z) : list gwrite :=\n    %s.\n' % asc_c
     out += '  Definition gen_asc_ortho_radial_take (rhs x : Z -> Z -> S) (i j : Z) : list gwrite :=\n    %s.\n' % asc_r
